@@ -190,7 +190,7 @@ m('create-executor-missing-case', ['C06', 'C11'], 'lib/execution/executors/execu
 m('reload-nexttableid-constant', ['C10'], CAT, '''	return &Catalog{bpm, tableIDs, tableNames, nextTableID, access.InitTableHeap''', '''	_ = nextTableID
 	return &Catalog{bpm, tableIDs, tableNames, 1, access.InitTableHeap''', ['C10-R1 [RecoveryCatalogFromCatalogPage:nextTableID-from-catalog]'])
 m('createtable-plain-read', ['C10', 'C19'], CAT, '''	oid := atomic.AddUint32(&c.nextTableID, 1) - 1''', '''	oid := c.nextTableID
-	atomic.AddUint32(&c.nextTableID, 1)''', ['C10-R2 [CreateTable:no-plain-read-of-nextTableID]', 'C19-R1 [atomic-only:nextTableID'])
+	atomic.AddUint32(&c.nextTableID, 1)''', ['C10-R2 [CreateTable:no-plain-read-of-nextTableID]', 'C19-R1/catalog [atomic-only:nextTableID'])
 m('inserttable-skips-flush', ['C10'], CAT, '''	// flush a page having columns definitions on table
 	c.bpm.FlushPage(ColumnsCatalogPageID)''', '''	// flush a page having columns definitions on table''', ['C10-R3'])
 m('shutdown-early-graceful-record', ['C09'], SD, '''	sdb.shi.Shutdown(ShutdownPatternCloseFiles)
@@ -277,7 +277,7 @@ m('begin-id-outside-mutex', ['C19', 'C16'], TM, '''		transactionManager.nextTxnI
 		txnRet = NewTransaction(transactionManager.nextTxnID)
 		transactionManager.mutex.Unlock()''', '''		transactionManager.nextTxnID += 1
 		transactionManager.mutex.Unlock()
-		txnRet = NewTransaction(transactionManager.nextTxnID)''', ['C19-R1 [TransactionManager.Begin:fields-under-mutex]'])
+		txnRet = NewTransaction(transactionManager.nextTxnID)''', ['C19-R1/txnid [TransactionManager.Begin:fields-under-mutex]'])
 m('pointscan-no-key-recheck', ['C04'], 'lib/execution/executors/point_scan_with_index_executor.go', '''		if !tpl.GetValue(sch, colIdxOfPred).CompareEquals(*scanKey) {
 			// found record is updated and commited case
 			e.foundTuples = make([]*tuple.Tuple, 0)
